@@ -47,6 +47,7 @@ def handle (ws : List String) : String :=
   | "setlen" :: minLen :: errNeg :: ages :: rest =>
     match parsePrec minLen, parseBool errNeg, (ages.splitOn ",").mapM Frac.parse, parseTree rest with
     | some m, some en, some as, some (t, []) =>
+      if as.length != t.size then "bad-op" else   -- one age per node, never a default age
       let tbl := (List.range as.length).zip as
       out (fun a => " ".intercalate ((byId a.lens).map renderOLen)) (setLens m en (withAges tbl t))
     | _, _, _, _ => "bad-op"
